@@ -129,12 +129,25 @@ pub enum Fed {
   DecoderPanicked(String, String),
 }
 
-pub struct FeedResult { pub fed: Fed, pub largest_alloc: usize }
+pub struct FeedResult { pub fed: Fed, pub largest_alloc: usize,
+  /// CPU time of the calling thread spent inside the loader and the constant decoder (not wall
+  /// clock: the host's load must not leak into a verdict)
+  pub cpu_ms: u64 }
+
+fn thread_cpu_ms() -> u64 {
+  let mut ts = libc::timespec { tv_sec: 0, tv_nsec: 0 };
+  unsafe { libc::clock_gettime(libc::CLOCK_THREAD_CPUTIME_ID, &mut ts); }
+  ts.tv_sec as u64 * 1000 + ts.tv_nsec as u64 / 1_000_000
+}
+/// A damaged file of a few hundred bytes is answered in microseconds; an answer that costs more
+/// CPU than this (plus 20 ms per KiB of file) is a loop whose length comes from the file's fields.
+pub fn cpu_limit_ms(file_len: usize) -> u64 { 3_000 + 20 * (file_len as u64 / 1024) }
 
 /// Consumer: the loader and the constant decoder on one byte string.
 pub fn feed(bytes: &[u8], original: Option<&[u8]>) -> FeedResult {
   take_last_panic();
   crate::alloc::reset_largest();
+  let cpu0 = thread_cpu_ms();
   let r = catch_unwind(AssertUnwindSafe(|| ParsedProgram::from_bytes(bytes)));
   let fed = match r {
     Err(p) => { let (m, l) = take_last_panic().unwrap_or((crate::hashseed::panic_message(&p), String::new())); Fed::LoaderPanicked(m, l) }
@@ -149,7 +162,7 @@ pub fn feed(bytes: &[u8], original: Option<&[u8]>) -> FeedResult {
       }
     }
   };
-  FeedResult { fed, largest_alloc: crate::alloc::largest() }
+  FeedResult { fed, largest_alloc: crate::alloc::largest(), cpu_ms: thread_cpu_ms().saturating_sub(cpu0) }
 }
 
 pub fn alloc_limit(file_len: usize) -> usize { (64 << 20) + 64 * file_len }
@@ -185,6 +198,9 @@ pub fn judge(m: &Mutation, fr: &FeedResult, file_len: usize) -> Option<Violation
     Fed::LoaderPanicked(msg, loc) => return v("loader-panicked", format!("{}|{}", loc, msg_class(msg)), format!("{}: loader panicked: {} @{}", m.label, trunc(msg, 120), loc)),
     Fed::DecoderPanicked(msg, loc) => return v("const-decoder-panicked", format!("{}|{}", loc, msg_class(msg)), format!("{}: constant decoder panicked: {} @{}", m.label, trunc(msg, 120), loc)),
     _ => {}
+  }
+  if fr.cpu_ms > cpu_limit_ms(file_len) {
+    return v("decoder-spins", label_class(&m.label), format!("{}: the loader and the constant decoder burnt {} ms of CPU on a {}-byte file (limit {} ms)", m.label, fr.cpu_ms, file_len, cpu_limit_ms(file_len)));
   }
   if fr.largest_alloc > alloc_limit(file_len) {
     return v("unbounded-allocation", label_class(&m.label), format!("{}: largest single allocation {} bytes for a {}-byte file", m.label, fr.largest_alloc, file_len));
@@ -295,8 +311,23 @@ pub fn structural(orig: &[u8], rng: &mut Rng) -> Mutation {
   let fl = orig.len();
   let mut m = Mutation::new("s", String::new());
   m.fix_crc = true;
-  let choice = rng.below(10);
+  let choice = rng.below(11);
   match choice {
+    10 => {
+      // the two leading words of a constant together (matrix rows x columns, table rows x columns):
+      // one of them zero and the other huge passes a product test and still drives a loop
+      let tbl = header_field(orig, "const_tbl_off") as usize;
+      let cnt = header_field(orig, "const_count") as usize;
+      let blob = header_field(orig, "const_blob_off") as usize;
+      if cnt == 0 || tbl + 24 * cnt > fl { return structural_fallback(orig, rng); }
+      let i = rng.usize(cnt);
+      let coff = rd(orig, tbl + 24 * i + 8, 8) as usize;
+      let clen = rd(orig, tbl + 24 * i + 16, 8) as usize;
+      if clen < 8 || blob + coff + clen > fl { return structural_fallback(orig, rng); }
+      let (a, b) = *rng.pick(&[(0u64, 0xffff_ffffu64), (0xffff_ffff, 0), (0, 0x7fff_ffff), (0, 0), (1, 0xffff_ffff), (0xffff_ffff, 1), (0x1_0000, 0x1_0000)]);
+      m.label = format!("blob const[{}] leading words=({:#x},{:#x})", i, a, b);
+      m.edits = vec![(blob + coff, le(a, 4)), (blob + coff + 4, le(b, 4))];
+    }
     0..=3 => {
       let (name, off, w) = *rng.pick(&HEADER_FIELDS[1..]);
       let old = rd(orig, off, w);
@@ -406,7 +437,9 @@ pub fn nesting_bomb(orig: &[u8], rng: &mut Rng) -> Mutation {
   for _ in 0..type_id { if p + 12 > fl { break; } let bl = rd(orig, p + 8, 4) as usize; p += 12 + bl; }
   if p + 12 > fl { return structural_fallback(orig, rng); }
   let n = *rng.pick(&[2_000usize, 20_000, 120_000]);
-  let tag_byte = *rng.pick(&[21u8, 21, 29]);
+  // one level per byte (matrix of / set of), or nine bytes per level (table with one column named "" of kind ...)
+  let unit: Vec<u8> = match rng.below(4) { 0 | 1 => vec![21u8], 2 => vec![29u8], _ => vec![26u8, 1, 0, 0, 0, 0, 0, 0, 0] };
+  let tag_byte = unit[0];
   let container = *rng.pick(&[45u64, 45, 42]); // TypeTag::Set, TypeTag::Table
   let ins = blob + blen;
   let pad = (8 - blen % 8) % 8;
@@ -414,7 +447,7 @@ pub fn nesting_bomb(orig: &[u8], rng: &mut Rng) -> Mutation {
   let mut out = Vec::with_capacity(fl + delta);
   out.extend_from_slice(&orig[..ins]);
   out.extend(std::iter::repeat(0u8).take(pad));
-  out.extend(std::iter::repeat(tag_byte).take(n));
+  out.extend(unit.iter().cycle().take(n));
   out.extend_from_slice(&orig[ins..]);
   let put = |out: &mut Vec<u8>, off: usize, v: u64, w: usize| { for (k, b) in le(v, w).into_iter().enumerate() { out[off + k] = b; } };
   let hoff = |name: &str| HEADER_FIELDS.iter().find(|(f, _, _)| *f == name).map(|(_, o, _)| *o).unwrap();
@@ -424,7 +457,7 @@ pub fn nesting_bomb(orig: &[u8], rng: &mut Rng) -> Mutation {
   put(&mut out, tbl + 24 * i + 5, 1, 1);                      // align 1
   put(&mut out, tbl + 24 * i + 8, (blen + pad) as u64, 8);    // offset
   put(&mut out, tbl + 24 * i + 16, n as u64, 8);              // length
-  let mut m = Mutation::new("n", format!("const[{}] re-typed as {} and pointed at {} nested kind tags {:#04x} appended to the constant blob", i, if container == 45 { "set" } else { "table" }, n, tag_byte));
+  let mut m = Mutation::new("n", format!("const[{}] re-typed as {} and pointed at {} bytes of nested kind tags {:#04x} ({} per level) appended to the constant blob", i, if container == 45 { "set" } else { "table" }, n, tag_byte, unit.len()));
   m.replace_all = Some(out);
   m.fix_crc = true;
   m
@@ -435,7 +468,7 @@ pub fn nesting_bomb(orig: &[u8], rng: &mut Rng) -> Mutation {
 /// attributes the death to the run and confirms it from the black box.
 pub fn feed_on_small_stack(bytes: Vec<u8>, hash_seed: u64) -> FeedResult {
   let h = std::thread::Builder::new().stack_size(8 << 20).spawn(move || { crate::hashseed::set_thread_hash_seed(hash_seed); feed(&bytes, None) }).expect("spawn small-stack consumer");
-  match h.join() { Ok(r) => r, Err(p) => FeedResult { fed: Fed::LoaderPanicked(crate::hashseed::panic_message(&p), String::new()), largest_alloc: 0 } }
+  match h.join() { Ok(r) => r, Err(p) => FeedResult { fed: Fed::LoaderPanicked(crate::hashseed::panic_message(&p), String::new()), largest_alloc: 0, cpu_ms: 0 } }
 }
 fn structural_fallback(orig: &[u8], rng: &mut Rng) -> Mutation {
   let (name, off, w) = *rng.pick(&HEADER_FIELDS[1..]);
